@@ -137,6 +137,7 @@ class Scenario:
             elif op[0] == "reset":
                 ode.reset()
             rec["t"] = [float(x) for x in ode.t]
+            rec["t_native"] = [x for x in np.asarray(ode.t)]      # in the precision of the run (float(x) is lossy for longdouble)
             rec["ylen"] = len(ode.y)
             rec["finite"] = bool(np.all(np.isfinite(ode.y)) and np.all(np.isfinite(ode.t)))
             rec["dtype_ok"] = (ode.y.dtype == np.dtype(T)) and (ode.t.dtype == np.dtype(T))
